@@ -118,7 +118,7 @@ def rust_bitfield(d):
 
 
 def rust_enum(d):
-    lines = []
+    lines = list(d.get('pre', []))
     args = [d.get('bits_text') or 'u%d' % d['bits']]
     if d.get('exh') is not None:
         sep = ': ' if d.get('legacy') else ' = '
@@ -148,6 +148,10 @@ def rust_enum(d):
         else:
             lines.append('    %s = %d,' % (v['name'], v['discr']))
     lines.append('}')
+    if d.get('macro_arg') is not None:
+        # the enum is produced by a macro_rules! macro; `$v` (an expr fragment) is one of its discriminants
+        return ['macro_rules! mk_%s {' % d['name'].lower(), '    ($v:expr) => {'] + ['        ' + l for l in lines] + \
+               ['    };', '}', 'mk_%s!(%s);' % (d['name'].lower(), d['macro_arg'])]
     return lines
 
 
